@@ -21,7 +21,9 @@ from vlib import *
 BYTES = {"{": b"{", "}": b"}", "[": b"[", "]": b"]", ":": b":", ",": b",", " ": b" ", "\"": b"\"", "\\": b"\\", "/": b"/",
          "-": b"-", "+": b"+", ".": b".", "ctl": b"\x01", "hi": "é".encode(), "bad": b"\xff", "ls": " ".encode(),
          "nl": b"\n", "tab": b"\t", "cr": b"\r", "del": b"\x7f", "emoji": "\U0001F600".encode(), "fffd": "�".encode(),
-         "<": b"<", ">": b">", "&": b"&"}
+         "<": b"<", ">": b">", "&": b"&",
+         # characters that Unicode calls white space and JSON does not
+         "ff": b"\x0c", "vt": b"\x0b", "nbsp": "\u00a0".encode(), "nel": "\u0085".encode(), "ideo": "\u3000".encode(), "bom": "\ufeff".encode()}
 for c in "0123456789abcdefABCDEFilnrstu":
     BYTES[c] = c.encode()
 CHUNKS = {"e20": "1" + "0" * 20, "e21": "1" + "0" * 21, "true": "true", "false": "false", "null": "null", "big": "922337203685477580", "str": "\"a\"", "u0041": "u0041", "u000a": "u000a",
@@ -386,6 +388,9 @@ def _run(V, work, tier):
                 ("numbers", ["-", "0", "1", "9", ".", "e", "E", "+", "big", "sp"], 6 if thorough else 5, ""),
                 # integers around 10^20 / 10^21, where the float's canonical text changes from positional to exponent form
                 ("wide-integers", ["-", "0", "1", "e20", "e21", "big", ".", "e"], 4 if thorough else 3, ""),
+                # white space: the four characters JSON allows between tokens, and the ones only Unicode calls white space
+                # (form feed, vertical tab, NBSP, NEL, U+2028, U+3000, a byte order mark), around and inside the smallest documents
+                ("whitespace", ["sp", "tab", "nl", "cr", "ff", "vt", "nbsp", "nel", "ls", "ideo", "bom", "null", "[", "]", "{", "}", "1", "str", ","], 4 if thorough else 3, ""),
                 ("strings", ["q", "bs", "a", "u", "n", "/", "0", "ctl", "hi", "bad", "u0041", "ud83d", "ude00", "ls", "nl", "b"], 5 if thorough else 4, "string")]
     if thorough:
         families.append(("numbers-in-array", ["-", "0", "1", "9", ".", "e", "+", "big", ","], 5, "array"))
